@@ -53,7 +53,14 @@ def _check_one(ctx, flav, fobj, m, vals, other=None):
     text = str(instr)
     ctx.count("print_parse_checks")
     try:
-        parsed = parse_text_subroutine(text, flavour=fobj).instructions
+        if ctx.counters["print_parse_checks"] % 3 == 0:
+            # the inline idiom parse_text_subroutine(text, flavour=NVFlavour()): temporary flavour objects of alternating
+            # classes come and go (and their memory addresses are reused)
+            other_flav = {"vanilla": "nv", "nv": "vanilla", "reids": "nv"}[flav]
+            parse_text_subroutine("set R0 1", flavour=codec.fresh_flavour(other_flav))
+            parsed = parse_text_subroutine(text, flavour=codec.fresh_flavour(flav)).instructions
+        else:
+            parsed = parse_text_subroutine(text, flavour=fobj).instructions
     except Exception as e:  # printed text must be valid source
         return f"{flav}: printed text {text!r} does not parse: {type(e).__name__}: {e}"
     if len(parsed) != 1:
